@@ -103,7 +103,9 @@ def noReuse : List TransportConn.Ev → Bool
 
 /-- expected outcome of the call that hits the cut -/
 def firstExpected (scenario : String) : String :=
-  if scenario.startsWith "writer.WriteMessages/metadata" || scenario.startsWith "reader." then "returned"
+  -- client.Metadata is answered from the pool's cached state: the request whose response is cut is the pool's own
+  -- refresh, and whether the caller sees its error or already the next (successful) refresh is a matter of timing
+  if scenario.startsWith "writer.WriteMessages/metadata" || scenario.startsWith "reader." || scenario.startsWith "client.Metadata" then "returned"
   else if scenario.startsWith "writer.WriteMessages" then "ok"     -- the Writer retries on a new connection
   else "err"
 
